@@ -344,6 +344,7 @@ func c01Hostile() []string {
 		"BEGIN { while (match (1) { 1 => { break } }) {} }", "BEGIN { for (i = 0; match (i) { x => { continue } }; i++) {} }",
 		"function f(n) { return f(n + 1)" + rep(" + 1", 100) + " } BEGIN { print f(0) }", "function f(n) { return " + rep("!", 120) + "f(n + 1) } BEGIN { print f(0) }",
 		"function f(n) { " + rep("if (true) { ", 150) + "return f(n + 1)" + rep(" }", 150) + " } BEGIN { f(0) }", "function f(n) { return [[[[[[[[[[[[[[[[[[[[f(n + 1)]]]]]]]]]]]]]]]]]]]] } BEGIN { f(0) }",
+		"function f(n) { return match (n) { k => f([k]) } } function g() { return f(0) } BEGIN { print g() }", "function f(n) { match (n) { k => { return f(k + 1) } } } function g() { return f(0) } function h() { return g() } { print h() }",
 		"BEGIN { print \"a\" ~ \"\", \"\" !~ \"\", \"a\" ~ '', 1 ~ \"\" } { e = \"\" ; print $ ~ e, $ ~ $.nosuch.x, e ~ e }", "BEGIN { r = // ; print \"a\" ~ r }", "{ print $ ~ //, $ !~ // }",
 		"BEGIN { \"abc\".split(\"\").sort().push(1).pop().floor().round() }", "BEGIN { [1,2,3].sort(1,2).length(5) }", "BEGIN { {}.pluck() ; {a:1}.pluck(null) }", "BEGIN { for (k, v in \"\xff\xfe\") print k, v }",
 	}
